@@ -34,13 +34,30 @@ def layouts(n: int):
     return seen
 
 
+def dup_layouts(n: int):
+    """the same site reported more than once (several rules cutting at one position): multiplicity must not matter, in
+    particular a list of exactly n+1 entries that does not cover every position is not the non-specific rule"""
+    out = []
+    for l in layouts(n):
+        if not l:
+            continue
+        pad = n + 1 - len(l)
+        cand = [tuple(l) + (l[-1],) * pad] if 0 < pad <= 3 else []
+        if len(l) == 1:
+            cand.append(tuple(l) * 2)
+        for c in cand:
+            if c not in out and len(set(c)) < n + 1:
+                out.append(c)
+    return out
+
+
 def build(tier: str) -> List[Cond]:
     conds: List[Cond] = []
     nmax = 4 if tier == "quick" else 6
     t = 60 if tier == "quick" else 240
     pre_all = ["mc >= 0", "mn >= 1", "mx >= 1"]
     for n in range(0, nmax + 1):
-        for sites in layouts(n):
+        for sites in layouts(n) + dup_layouts(n):
             variants = [(False, False)]
             if n <= 3 or (tier == "thorough" and n <= 4):
                 variants += [(True, True)]
